@@ -166,7 +166,58 @@ func cmdSelectors(args []string) {
 		r, err = g.Filter(lint.FilterOptions{ExcludeNames: []string{ms.Name}})
 		emit("name", "lib-exclude-late", ms.Name, listed, listed, err == nil, err == nil && len(r.Names()) == len(now)-1 && !contains(r.Names(), ms.Name))
 	}
+	// ---- profiles as an API (none is registered in this tree, so the mechanism is exercised with profiles made here):
+	// a registered profile is retrievable and listed; selecting by it yields exactly its lints; one that names a lint the
+	// registry does not have is rejected, not silently narrowed
+	{
+		cur := g.Names()
+		mk := func(name string, lints []string) lint.Profile {
+			return lint.Profile{Name: name, Description: "verif", Citation: "verif", Source: lint.RFC5280, LintNames: lints}
+		}
+		pick := []string{cur[0], cur[len(cur)/3], cur[len(cur)/2], cur[len(cur)-1]}
+		for _, k := range []string{"crl", "ocsp"} {
+			if ls := lintsOf(g, k); len(ls) > 0 {
+				pick = append(pick, ls[0].Name)
+			}
+		}
+		for _, pr := range []lint.Profile{mk("verif_all_listed", pick), mk("verif_one", pick[:1]), mk("verif_with_unknown", append([]string{"e_no_such_lint"}, pick[:2]...)),
+			mk("verif_padded", []string{" " + pick[1] + " "})} {
+			lint.RegisterProfile(pr)
+			got, ok := lint.GetProfile(pr.Name)
+			inAll := false
+			for _, x := range lint.AllProfiles() {
+				if x.Name == pr.Name {
+					inAll = true
+				}
+			}
+			allListed := true
+			want := map[string]bool{}
+			for _, n := range pr.LintNames {
+				if !contains(cur, strings.TrimSpace(n)) {
+					allListed = false
+				}
+				want[strings.TrimSpace(n)] = true
+			}
+			var fo lint.FilterOptions
+			fo.AddProfile(got)
+			r, err := g.Filter(fo)
+			faithful := false
+			if err == nil {
+				faithful = len(r.Names()) == len(want)
+				for _, n := range r.Names() {
+					if !want[n] {
+						faithful = false
+					}
+				}
+			}
+			w.Emit(ev.M{"ev": "ProfileUse", "name": pr.Name, "retrievable": ok && inAll && len(got.LintNames) == len(pr.LintNames), "allListed": allListed, "accepted": err == nil, "faithful": faithful})
+			classes["profile-use|"+pr.Name] = true
+		}
+	}
 	for _, p := range lint.AllProfiles() {
+		if strings.HasPrefix(p.Name, "verif_") {
+			continue // made above to exercise the mechanism; not a profile of the tree
+		}
 		missing := []string{}
 		for _, n := range p.LintNames {
 			if !listedName[n] {
@@ -179,7 +230,7 @@ func cmdSelectors(args []string) {
 	n := w.N
 	w.Close()
 	ev.WriteJSON(out("summary.json"), ev.M{"events": n, "classes": len(classes), "names": len(names), "sources": len(listedSrc),
-		"profiles_lib": len(lint.AllProfiles()), "sample": ev.M{"kind": "source", "entry": "sourcelist", "tok": "RFC6960"}})
+		"profiles_lib": len(lint.AllProfiles()) - 4, "sample": ev.M{"kind": "source", "entry": "sourcelist", "tok": "RFC6960"}})
 }
 
 func contains(l []string, s string) bool {
